@@ -54,3 +54,26 @@ func TestKFC09RangeDefine(t *testing.T) {
 		cb.Val(fmtPkg.Ref("Println")).Val(v).Call(1).EndStmt().End()
 	})
 }
+
+// switch fmt := v.(type) { case int: fmt.Println(fmt) }
+func TestKFC09TypeSwitchSymbol(t *testing.T) {
+	c09Check(t, "type switch symbol", func(pkg *gogen.Package, fmtPkg gogen.PkgRef, cb *gogen.CodeBuilder) {
+		cb.NewVar(types.NewInterfaceType(nil, nil), "v")
+		v := cb.Scope().Lookup("v")
+		cb.TypeSwitch("fmt").Val(v).TypeAssertThen().
+			TypeCase().Typ(types.Typ[types.Int]).Then()
+		sym := cb.Scope().Lookup("fmt")
+		cb.Val(fmtPkg.Ref("Println")).Val(sym).Call(1).EndStmt().End().End()
+	})
+}
+
+// const ( fmt = iota ) ... fmt.Println(fmt)
+func TestKFC09ConstGroup(t *testing.T) {
+	c09Check(t, "const group", func(pkg *gogen.Package, fmtPkg gogen.PkgRef, cb *gogen.CodeBuilder) {
+		defs := pkg.NewConstDefs(cb.Scope())
+		defs.New(func(cb *gogen.CodeBuilder) int { cb.Val(7); return 1 }, 0, token.NoPos, nil, "first")
+		defs.Next(1, token.NoPos, "fmt")
+		c := cb.Scope().Lookup("fmt")
+		cb.Val(fmtPkg.Ref("Println")).Val(c).Call(1).EndStmt()
+	})
+}
